@@ -524,6 +524,7 @@ func main() {
 		{Readers: 1, Reads: 1, Writers: 1, Packets: 1, Deadline: "past-past"},
 		{Readers: 2, Reads: 1, Writers: 1, Packets: 1, Deadline: "zero-past"},
 		{Readers: 1, Reads: 2, Writers: 1, Packets: 2, Fill: true},
+		{Readers: 2, Reads: 1, Writers: 1, Packets: 1, Deadline: "past-then-zero"},
 	}
 	dsc := shapes[*shard%len(shapes)]
 	dsc.Strategy = "dfs"
